@@ -1,4 +1,5 @@
 import SdJwt.Lemmas.Conf
+import SdJwt.Lemmas.Redact
 /-!
 # C06 — undisclosed claims stay confidential in the issuer JWT and in presentations
 
@@ -45,3 +46,20 @@ example :
                     (.clear "shown" (.leaf (.str "v")) .nil)) (some ["dg1"])
     "secret-name" ∉ J.strings T.payload ∧ "secret-value" ∉ J.strings T.payload ∧ "v" ∈ J.strings T.payload := by
   decide
+
+/-- **No disclosure for a redacted claim nor for a claim nested inside a redacted claim, and
+every other one is kept** — in terms of the tree, for ANY redaction list: the entry of a marked
+node is kept iff its pointer is not redacted and the node does not lie inside a marked node whose
+pointer is redacted.  Hence the number of kept disclosures is |M minus below-or-equal(R)|. -/
+theorem C06_kept_tree (T : MJ) (wf : T.WF) (nd : T.allMarks.Nodup) (ps : List PathEntry)
+    (hps : HolderList T ps) (R : List String) (pe : PathEntry) :
+    pe ∈ keptEntries ps R ↔
+      pe ∈ ps ∧ pe.1 ∉ R ∧ ∀ q ∈ ps, q.1 ∈ R → pe.2.digest ∉ T.under q.2.digest :=
+  kept_iff_tree T wf nd ps hps R pe
+
+/-- the string test of `Holder::build` is the tree's ancestry: for two marked nodes with pointers
+`q'`, `q` and digests `g'`, `g`, `q` starts with `q' + "/"` iff `g` lies strictly inside `g'` -/
+theorem C06_starts_with_is_ancestry (T : MJ) (wf : T.WF) (nd : T.allMarks.Nodup)
+    (q' g' q g : String) (h' : (q', g') ∈ T.paths "") (h : (q, g) ∈ T.paths "") :
+    ((q' ++ "/").toList.isPrefixOf q.toList = true) ↔ g ∈ T.under g' :=
+  starts_with_iff_under T wf nd q' g' q g h' h
